@@ -154,6 +154,35 @@ def check_fresh_machinery(ctx, nm, res, rule):
     # the candidate is tested with contains on the same set
     tests = [c for c in f.calls() if (c.rpath or "").endswith("HashSet::<T, S, A>::contains")]
     res.floor("contains-tests in the fresh-name function", len(tests), 1)
+    # ... and what is returned is a name the set was just found NOT to contain: the return is dominated by the
+    # not-contained edge of a containment test of that very value (edge dominance, so that it also works inside
+    # the exit-less search loop, where classic control dependence sees nothing)
+    for (bb, val) in rets:
+        free = False
+        seen_tests = []
+        for a_, blk in enumerate(f.blocks):
+            if blk["cleanup"] or blk["term"]["k"] != "switch":
+                continue
+            t_ = blk["term"]
+            ce = canon(ex.operand(t_["discr"]))
+            m_ = re.match(r"^(Not\()?HashSet::contains\(param\d+, (.*?)\)\)?$", ce)
+            if not m_:
+                continue
+            tested = m_.group(2)
+            tg = {v: tb for (v, tb) in t_["targets"]}
+            if not m_.group(1):
+                sf = tg.get(0)
+            else:
+                sf = t_["otherwise"] if 0 in tg else None
+            if sf is None:
+                continue
+            edge_dom = sf in dom.get(bb, ()) and f.preds(sf) == [a_]
+            seen_tests.append((tested[:60], edge_dom))
+            if edge_dom and (tested == val or tested in val or val in tested):
+                free = True
+        res.inst(rule, "fresh-fn|return-free", f.where, True, "returns %s; dominated by the not-contained edge of a test of it: %s (%s)" % (val[:60], free, seen_tests))
+        if not free:
+            res.violate(rule, "fresh-fn|return-not-tested", f.where, "the fresh-name function returns `%s` without the used set having just been found not to contain that very name (tests: %s): the name can be one the user (or an earlier internal item) already has" % (val[:120], seen_tests))
 
 
 def defining_positions(toks):
@@ -603,6 +632,16 @@ def run_rules(ctx, res):
         if entry:
             stage = check_pass(mir, V, entry[0], errs[0], tmp)
             check_leaf(mir, stage, errs[0], tmp)
+            from .c10 import check_kind as _c10_kind
+            _c10_kind(mir, stage, errs[0], tmp)
+    # user item names are pairwise distinct and references resolve within their kind (C10's kind / clash-map rule):
+    # two items of one name, or a field typed by a name of the wrong kind, do not compile
+    UNIQ_ITEMS = "R-C05-distinct-items"
+    res.rule(UNIQ_ITEMS, "validation guarantees that top-level user names (nonterminals, terminal variants, the terminal enum) are pairwise distinct and that every reference resolves to a definition of its own kind (imported from C10 R-C10-kind incl. the clash map)")
+    vk_ = [v for v in tmp.violations if v.rule == "R-C10-kind"]
+    res.inst(UNIQ_ITEMS, "C10 kind and clash-map rule", "", True, "%d violations" % len(vk_))
+    for v in vk_:
+        res.violate(UNIQ_ITEMS, "c10|" + v.key, v.where, "the emitted module declares one item per user name and refers to each by kind; C10's rule fails: " + v.msg)
     bad = [v for v in tmp.violations if v.rule in ("R-C10-leaf", "R-C10-pass")]
     res.inst(CAPS, "capitalisation-validators", "", True, "R-C10-leaf and R-C10-pass: %s" % ("hold" if not bad else bad[0].msg[:100]))
     if bad:
